@@ -227,7 +227,7 @@ class Engine:
         # wall-clock timeout: the set of explored paths, hence of obligation labels, must not
         # depend on how busy the 16 cores are
         self.feas.set('rlimit', int(os.environ.get('PYVC_FEAS_RLIMIT', '4000000')))
-        self.feas.set('timeout', 20000)
+        self.feas.set('timeout', 300000)     # safety net only: the rlimit decides
         self.loop_ordinals = {}
         self.inline_class_stack = []
         self.stats = {'paths': 0, 'feas_checks': 0, 'inlined': set(), 'callee_contracts': set()}
